@@ -101,6 +101,10 @@ func (s *walletSessionManager) createSession(userID string, keyManager kms.KeyMa
 }
 
 func (s *walletSessionManager) getSession(authToken string) (*Session, error) {
+	// looking the token up and renewing its expiry is one step: a session closed in between must not be put back.
+	s.mu.Lock()
+	defer s.mu.Unlock()
+
 	sess, err := s.gstore.Get(authToken)
 	if err != nil {
 		if errors.Is(err, gcache.KeyNotFoundError) {
